@@ -211,7 +211,10 @@ def targets(ctx):
 
     from . import _grammar as _g
 
+    from . import _seq
+
     return [
         Target("corpus_values_json_vs_reference", ev, strategy=strat(), quick=600, thorough=7000, time_quick=70),
         Target("grammar_schema_json_names", grammar_ev, strategy=_g.strategy(), quick=3, thorough=40, time_quick=60, time_thorough=900, pin_budget=10, pin_sigs=1),
+        _seq.target("C05"),
     ]
